@@ -34,15 +34,12 @@ def originOk (bracketOk : Str → Bool) (cfg : SCfg) (r : Req) : Bool :=
 def selectionOk (select : List Str → Option Str) (r : Req) : Bool :=
   !truthy (select (offeredProtocols r)) || (offeredProtocols r).contains ((select (offeredProtocols r)).getD [])
 
-/-- the permessage-deflate offer that will be answered (if any) has acceptable parameters -/
-def offerOk (cfg : SCfg) (r : Req) : Bool :=
-  match deflateOffer cfg r with
-  | some params => compressorsOk (ofString "server") (ofString "client") params
-  | none => true
-
-/-- the upgrade is valid and permitted -/
+/-- the upgrade is valid and permitted.  Nothing about `Sec-WebSocket-Extensions` appears here: an extension offer,
+however malformed, is never a reason to refuse the upgrade (RFC 7692 section 5: the server declines the offer).
+`selectionOk` is a condition on the APPLICATION (its `select_subprotocol` answered something the client did not
+offer), not on the request. -/
 def shouldAccept (bracketOk : Str → Bool) (select : List Str → Option Str) (cfg : SCfg) (r : Req) : Bool :=
-  upgradeOk r && connectionOk r && originOk bracketOk cfg r && requiredOk r && selectionOk select r && offerOk cfg r
+  upgradeOk r && connectionOk r && originOk bracketOk cfg r && requiredOk r && selectionOk select r
 
 def isAccepted : Resp → Bool
   | .accepted _ _ _ => true
